@@ -4,6 +4,7 @@ import Esp.Model.SymAead
 import Esp.Spec.Wire
 import Driver.Util
 import Driver.Conv
+import Driver.Ka
 /-!
 # Line-protocol driver
 
@@ -16,6 +17,7 @@ structure St where
   plain : Plain.State := {}
   noiseCfg : Noise.Config := { expectedName := none, hs := fun _ => .raises, utf8 := fun _ => true }
   noise : Noise.Helper := {}
+  ka : Keepalive.State := Keepalive.init 1
 
 def showPlainErr : Option PlainErr → String
   | none => "none" | some .requiresEncryption => "requiresEncryption" | some .protocol => "protocol"
@@ -119,7 +121,11 @@ def step (st : St) (line : String) : St × String :=
       | .error e => (st, s!"psk err:{showNoiseErr e}")
   | ["noise.eof"] =>
     let r := Noise.eofReceived st.noise.st; ({ st with noise := { st.noise with st := r.1 } }, showNoise r)
-  | ws => if (ws.head?.getD "").startsWith "conv." then (st, convStep ws) else (st, "bad-op")
+  | ws =>
+    let h := ws.head?.getD ""
+    if h.startsWith "conv." then (st, convStep ws)
+    else if h.startsWith "ka." then let r := DrvKa.kaStep st.ka ws; ({ st with ka := r.1 }, r.2)
+    else (st, "bad-op")
 
 partial def loop (h : IO.FS.Stream) (out : IO.FS.Stream) (st : St) : IO Unit := do
   let line ← h.getLine
